@@ -376,7 +376,7 @@ func isSumOf(desc string, n int64, prefix string) bool {
 // ---------------- R4: prefetch appends exactly what was read ----------------
 
 func c01R4(c *Ctx, r *Report, rule string) {
-	r.rule(rule, "prefetch: each underlying Conn.Read(dst) is followed by buf := buf[:len+n] when dst = buf[len:len+chunk], or buf := append(buf, tmp[:n]...) when dst = tmp, with n that read's count; no other store to buf", 2)
+	r.rule(rule, "prefetch: each underlying Conn.Read(dst) is followed by buf := buf[:len+n] when dst = buf[len:len+chunk], or buf := append(buf, tmp[:n]...) when dst = tmp, with n that read's count; no other store to buf", 4)
 	fnName := "layer4.(*Connection).prefetch"
 	fn := c.Fn(fnName)
 	if fn == nil {
@@ -386,7 +386,7 @@ func c01R4(c *Ctx, r *Report, rule string) {
 	for _, w := range []struct {
 		l, cp int64
 		name  string
-	}{{0, 2048, "room-in-buffer"}, {2048, 2048, "buffer-full-capacity"}} {
+	}{{0, 2048, "room-in-buffer"}, {2048, 2048, "buffer-full-capacity"}, {0, 0, "no-buffer-yet"}, {100, 120, "little-room"}} {
 		sc := &Scenario{
 			Name:   fmt.Sprintf("%s(len=%d,cap=%d)", w.name, w.l, w.cp),
 			Heap:   map[string]SV{"recv.buf": symSliceCap("recv.buf", w.l, w.cp)},
